@@ -7,6 +7,18 @@ HERE = os.path.dirname(os.path.dirname(os.path.abspath(__file__)))
 
 # id -> (built?, technique, level text, level note, design ref)
 CHECKS = {
+ "C07": (True, "exhaustive value/schema enumeration comparing CborLen with the real encoder (and exact-fit / one-short buffers)",
+         "Every small-domain value of every built-in CborLen instantiation, the integer width tables (exhaustive to 16 bits, 2^32 in the thorough tier), every Token variant with boundary payloads and every value of every generated derive schema: len(v) must equal the number of bytes written, a buffer of exactly that size must suffice and one byte less must fail with a write error.",
+         "trusted: the real encoder is the oracle for the length (C03/C08 check the encoder itself)", "5/C07"),
+ "C11": (True, "exhaustive enumeration of well-formed item sequences and of token sequences over a boundary alphabet; tokenise / re-encode compared with a reference head list",
+         "All item trees up to the node bound (all head widths for small ones), all ordered pairs of small items, all 65536 half items except signalling NaNs and all simple values are tokenised and re-encoded: tokens must equal the reference pre-order head list and the bytes must be reproduced (shortest heads for non-preferred input); every token sequence up to length 3/4 over an 85-token alphabet must survive encode + tokenise value-equal; on all byte strings up to the bound tokenisation ends after at most one item per byte.",
+         "trusted: refmodel parser/encoder and the reference head list in harness/checks/src/c11.rs", "5/C11"),
+ "C13": (True, "exhaustive (value, capacity, sink) enumeration + closed state-space search over write_all sequences on small cursors, against a Vec-with-capacity model",
+         "Every small-domain value with an encoding <= 40 bytes is encoded into every sink kind at every capacity 0..=len+1: success iff it fits, identical bytes in all sinks, write error otherwise with an untouched tail, intact guard regions and a prefix of the encoding left behind; all sequences of <= 3/4 raw write_all calls of every length on cursors of capacity 0..=4 are compared step by step with the model (position, all-or-nothing).",
+         "trusted: Vec-with-capacity model; guard regions only observe writes through safe code paths", "5/C13"),
+ "C19": (True, "exhaustive input/tree enumeration against a length-limited fmt sink and a reference renderer of the documented notation",
+         "display() is run on all byte strings up to the bound, the hostile heads and all one-point deviations of small trees into a sink that refuses more than 16*len+512 bytes and under the input-access counter; for all well-formed trees up to the node bound in every head-width assignment the output must equal the reference rendering of the documented diagnostic notation.",
+         "trusted: refmodel::render (floats through Rust's {:e}), size constant 16*len+512", "5/C19"),
  "C02": (True, "exhaustive input enumeration (all byte strings <= 2/3/4 bytes, hostile heads, all one-point deviations of valid encodings) x state closure over Decoder positions, with unwind / allocation / work / drop monitors",
          "Every decoding entry point (~210: typed decode of every table type, accessors, iterators driven to completion and abandoned, skip, tokens, probe, Size, display, drop-tracking element types) is run from every position of {0..=len+1, usize::MAX} on every byte string up to the bound, on ~6000 hostile heads and on every single-byte substitution / truncation / argument replacement of valid encodings. A call must return, stay in bounds, allocate at most a type constant plus a constant per input byte, perform at most 8*len+64 input accesses (hook H2) and drop decoded values exactly once.",
          "trusted: counting allocator, H2 counter, watchdog; inputs longer than the bound are reached only as deviations of valid encodings (<= 40 bytes)", "5/C02"),
